@@ -113,7 +113,7 @@ def gen_queries(rng, scale, with_cultures):
     # formatting through the least-recently-added caches
     from vf import textgen as G
     cults = [c.name for c in G.cultures(rng, 520 if with_cultures else 30)]
-    pats = ["D", "d", "MMMM d", "dddd", "ddd MMM", "uuuu-MM-dd"]
+    pats = ["D", "d", "MMMM d", "dddd", "ddd MMM", "uuuu-MM-dd", "yyyy MM dd gg", "yyyy g"]
     for j, cn in enumerate(cults):
         Q.append(["fmt", "LocalDate", pats[j % len(pats)], cn, rng.randint(-20000, 30000)]); slot.append(("fmt", j % 16))
     if with_cultures:
